@@ -205,8 +205,20 @@ def run_rules(mod, ctx: Ctx, only: Optional[set[str]] = None) -> None:
         from .inline import normalise_repo
 
         n_canon = canon_repo(ctx.repo)
+        if os.environ.get("SA_NO_INDEXLOOPS") != "1":
+            from .canon import index_loops_repo
+
+            n_il = index_loops_repo(ctx.repo)
+            if n_il:
+                ctx.note(f"index loops rewritten as enumerate / zip (sa/canon.py C9): {n_il}")
         rep = normalise_repo(ctx.repo, ctx.keep_names)
         n_canon += canon_repo(ctx.repo)
+        if os.environ.get("SA_NO_MERGE") != "1":
+            from .canon import merge_reassignments_repo
+
+            n_mr = merge_reassignments_repo(ctx.repo)
+            if n_mr:
+                ctx.note(f"straight-line re-assignments merged (sa/canon.py C8): {n_mr}")
         if os.environ.get("SA_NO_UNROLL") != "1":
             from .canon import unroll_name_loops_repo
 
